@@ -298,6 +298,12 @@ class PG:
                         body = body + [dict(op=rng.choice(["inContext", "runIn"]), x=x, body=inner)]
                     body.append(dict(op="probe", n=self.nprobe))
                     self.nprobe += 1
+                if rng.random() < 0.3:
+                    # finish the action while it is still the current one (whatever its extractors log lands in it)
+                    body = body + [dict(op="finish", x=x, exc=None if rng.random() < 0.3 else rng.randint(0, 7))]
+                    if rng.random() < 0.5:
+                        body.append(dict(op="log", ms=self.mspec()))
+                    finished = True
                 out.append(dict(op=rng.choice(["inContext", "runIn"]), x=x, body=body))
                 out.append(dict(op="probe", n=self.nprobe))
                 self.nprobe += 1
